@@ -3859,11 +3859,12 @@ static void DecodeTBL(Word Index) {
                     CodeLen = 4 + AdrResult.Cnt;
                 }
             } else {
-                as_dynstr_copy_c_str(&ArgStr[3].str, p + 1);
-                *p = '\0';
-                if (DecodeAdr(&ArgStr[1], MModData, &AdrResult)) {
+                tStrComp FirstReg, SecondReg;
+
+                StrCompSplitRef(&FirstReg, &SecondReg, &ArgStr[1], p);
+                if (DecodeAdr(&FirstReg, MModData, &AdrResult)) {
                     w2 = AdrResult.Mode;
-                    if (DecodeAdr(&ArgStr[3], MModData, &AdrResult)) {
+                    if (DecodeAdr(&SecondReg, MModData, &AdrResult)) {
                         WAsmCode[0] = 0xf800 | w2;
                         WAsmCode[1]
                                 = 0x0000 | (OpSize << 6) | (Mode << 12) | AdrResult.Mode;
